@@ -403,3 +403,25 @@ fn replay(_sub: &str, case: &Json) -> Option<CaseResult> {
     let c: Case = serde_json::from_value(case.get("case")?.clone()).ok()?;
     Some(check_case(&c, case.get("label").and_then(|l| l.as_str()).unwrap_or("anybytes")))
 }
+
+/// libFuzzer entry: raw bytes (mode % 3 == 0) or a generated case.
+pub fn fuzz(f: &mut FuzzIn) -> Option<CaseResult> {
+    match f.mode % 3 {
+        0 => {
+            let (q, rest) = f.raw_q_input();
+            let (src, input) = rest.split_first()?;
+            if input.len() > 400 {
+                return None;
+            }
+            Some(check_case(&Case { input: input.to_vec(), q, source: src % 3 }, "anybytes"))
+        }
+        1 => {
+            let (c, l) = f.draw(&g_case(256))?;
+            Some(check_case(&c, l))
+        }
+        _ => {
+            let (c, l) = f.draw(&g_nesting())?;
+            Some(check_case(&c, l))
+        }
+    }
+}
